@@ -655,6 +655,11 @@ func (nfs *Nfs) NFSPROC3_RENAME(args nfstypes.RENAME3args) nfstypes.RENAME3res {
 			}
 			dipfrom = inodes[0]
 			dipto = inodes[1]
+			if dipfrom.Gen != fromh.Gen || dipto.Gen != toh.Gen {
+				errRet(op, &reply.Status, nfstypes.NFS3ERR_STALE)
+				done = true
+				break
+			}
 		}
 
 		util.DPrintf(3, "from %v to %v\n", dipfrom, dipto)
